@@ -52,6 +52,22 @@ FIXEDV = [
     (['f', 'val', 'divv', '*'], 1, 2),                                  # linear form with the divergence of the test function
 ]
 
+# boundary integrals (2-D): affine maps whose columns have rational length (the surface weight |J t| must be rational);
+# the second one reverses the orientation (det < 0)
+SPACESB = [
+    dict(kvs=[[0, 0, 1, 3, 3], [0, 0, 0, 1, 2, 2, 2]], ps=[1, 2], A=[[3, 0], [4, 2]], t=[1, -2], norms=[5, 2]),
+    dict(kvs=[[0, 0, 0, 2, 3, 3, 3], [0, 0, 1, 2, 2]], ps=[2, 1], A=[[0, 3], [2, 4]], t=[0, 1], norms=[2, 5]),
+]
+FIXEDB = [
+    ['u', 'v', '*'],                                   # boundary mass (Robin term)
+    ['gu', 'nrm', 'inner', 'v', '*'],                  # normal derivative of the trial function (Nitsche)
+    ['f', 'val', 'v', '*'],                            # Neumann load
+    ['g', 'nrm', 'inner', 'v', '*'],                   # flux load
+    ['u', 'gv', 'nrm', 'inner', '*'],                  # adjoint consistency term
+    ['ux', 'vy', '*'],                                 # tangential and normal derivatives mixed
+    ['A', 'gu', 'matvec', 'nrm', 'inner', 'v', '*'],   # conormal derivative
+]
+
 FIELDS = {
     2: dict(f=[[1, 2], [1, 3], [-1, 4]], f2=[[2, 1], [-1, 2], [1, 5]], h=[[1, 1], [1, 2], [-2, 3]],
             g=[[[1, 1], [1, 2], [0, 1]], [[-1, 2], [0, 1], [2, 3]]], A=[[[2, 1], [1, 2]], [[-1, 3], [3, 2]]], c=[3, 2],
@@ -133,10 +149,10 @@ def run(ctx):
     rng = random.Random(ctx.seed)
     nforms = 120 if ctx.thorough else 10
     # 1. generate
-    consts = dict(Dim=2, MaxTok=3, MaxStack=3, Rich=True, Poly=True, NcU=1, NcV=1)
+    consts = dict(Dim=2, MaxTok=3, MaxStack=3, Rich=True, Poly=True, NcU=1, NcV=1, Bnd=False)
     cfg = write_cfg(ctx.scratch / 'gen_poly3.cfg', consts, invariants=['TypeOK'])
     r1 = ctx.tlc('VFormGen', cfg, workers=4)
-    consts2 = dict(Dim=2, MaxTok=9, MaxStack=3, Rich=True, Poly=True, NcU=1, NcV=1)
+    consts2 = dict(Dim=2, MaxTok=9, MaxStack=3, Rich=True, Poly=True, NcU=1, NcV=1, Bnd=False)
     cfg2 = write_cfg(ctx.scratch / 'gen_polysim.cfg', consts2, invariants=['TypeOK'])
     r2 = ctx.tlc('VFormGen', cfg2, workers=4, simulate=30000 if not ctx.thorough else 120000, depth=14, seed=ctx.seed + 3)
     gen = {}
@@ -187,7 +203,7 @@ def run(ctx):
     if True:
         for nu_, nv_ in ((2, 2), (2, 1), (1, 2)):
             cv = write_cfg(ctx.scratch / ('gen_vec%d%d.cfg' % (nu_, nv_)),
-                           dict(Dim=2, MaxTok=8, MaxStack=3, Rich=True, Poly=True, NcU=nu_, NcV=nv_), invariants=['TypeOK'])
+                           dict(Dim=2, MaxTok=8, MaxStack=3, Rich=True, Poly=True, NcU=nu_, NcV=nv_, Bnd=False), invariants=['TypeOK'])
             rv = ctx.tlc('VFormGen', cv, workers=2, simulate=6000 if not ctx.thorough else 40000, depth=13, seed=ctx.seed + 7 + nu_ * 3 + nv_)
             cand = {tuple(f['tokens']): f for f in rv.recs('FORM') if f['deg'][1] == 1 and f['bilinear'] and len(f['tokens']) >= 4}
             cand = [cand[k] for k in sorted(cand)]
@@ -208,15 +224,65 @@ def run(ctx):
                           ncu=nu_ if bil else 1, ncv=nv_, A=[[[x, 1] for x in row] for row in sp['A']],
                           t=[[x, 1] for x in sp['t']], tokens=t, bilinear=bil, fields=FIELDS[2],
                           pairs=[list(p) for p in sorted(prs)], shape=[nv_ * n, nu_ * n if bil else 1]))
+    # boundary integrals: every form on all four sides, assembled one after the other in ONE process with ONE args dict
+    bjobs = []
+    bforms = [list(t) for t in FIXEDB]
+    cb = write_cfg(ctx.scratch / 'gen_bnd.cfg', dict(Dim=2, MaxTok=8, MaxStack=3, Rich=True, Poly=True, NcU=1, NcV=1, Bnd=True),
+                   invariants=['TypeOK'])
+    rb = ctx.tlc('VFormGen', cb, workers=2, simulate=6000 if not ctx.thorough else 40000, depth=13, seed=ctx.seed + 19)
+    cand = {tuple(f['tokens']): f for f in rb.recs('FORM') if f['deg'][1] == 1 and 'nrm' in f['tokens'] and len(f['tokens']) >= 4}
+    cand = [cand[k] for k in sorted(cand)]
+    rng.shuffle(cand)
+    bforms += [list(f['tokens']) for f in cand[:(10 if ctx.thorough else 2)]]
+    for j, t in enumerate(bforms if ctx.thorough else bforms[:len(FIXEDB) - 2] + bforms[len(FIXEDB):]):
+        sp = SPACESB[j % len(SPACESB)]
+        shape = [len(kk) - p - 1 for kk, p in zip(sp['kvs'], sp['ps'])]
+        bil = any(x in ('u', 'ux', 'uy', 'uxp', 'uxx', 'uxy', 'gu', 'gup', 'Hu') for x in t)
+        sides = [(0, 0), (0, 1), (1, 0), (1, 1)]
+        sides = sides[j % 4:] + sides[:j % 4]
+        if not ctx.thorough:
+            sides = sides[:3]
+        job = dict(id=900 + j, dim=2, kvs=sp['kvs'], ps=sp['ps'], A=[[[x, 1] for x in row] for row in sp['A']],
+                   t=[[x, 1] for x in sp['t']], tokens=t, bilinear=bil, fields=FIELDS[2], sides=sides, measure='ds')
+        bjobs.append(job)
+        for sidx, (ax, side) in enumerate(sides):
+            # boundary assembly works in the trace space: the single basis function that does not vanish on the face in
+            # the normal direction times all functions of the other direction; the result is indexed by the latter
+            prs = set()
+            edge = 0 if side == 0 else shape[ax] - 1
+            oth = 1 - ax
+            nb = shape[oth]
+            for _attempt in range(200):
+                if len(prs) >= min(9, nb * (nb if bil else 1)):
+                    break
+                ib = rng.randrange(nb)
+                jb = int(min(nb - 1, max(0, ib + rng.randint(-sp['ps'][oth], sp['ps'][oth])))) if bil else 0
+                prs.add((ib, jb))
+            bpairs = sorted(prs)
+
+            def full(k):
+                mi = [0, 0]
+                mi[ax], mi[oth] = edge, k
+                return int(np.ravel_multi_index(mi, shape))
+            prs = [(full(ib), full(jb) if bil else 0) for ib, jb in bpairs]
+            # in x-first order the fixed parameter of kv-axis ax has index 1 - ax; its face tangent is the OTHER column
+            tnorm = sp['norms'][ax]      # norms[k] = length of column k of A (x-first), tangent column index = ax
+            cases.append(dict(id=9000 + 10 * j + sidx, job=900 + j, sidx=sidx, dim=2, kvs=sp['kvs'], ps=sp['ps'], kvs1=sp['kvs'],
+                              ps1=sp['ps'], twospace=False, A=job['A'], t=job['t'], tokens=t, bilinear=bil, fields=FIELDS[2],
+                              pairs=[list(p) for p in prs], bpairs=[list(p) for p in bpairs], shape=[nb, nb if bil else 1],
+                              bax=ax + 1, bside=side, tnorm=[tnorm, 1]))
     for c in cases:
         c.setdefault('ncu', 1)
         c.setdefault('ncv', 1)
+        c.setdefault('bax', 0)
+        c.setdefault('bside', 0)
+        c.setdefault('tnorm', [1, 1])
     smoke = [dict(id=1000 + i, dim=2, kvs=SPACES[2][0]['kvs'], ps=SPACES[2][0]['ps'],
                   A=[[[x, 1] for x in row] for row in SPACES[2][0]['A']], t=[[x, 1] for x in SPACES[2][0]['t']],
                   expr=e, fields=FIELDS[2]) for i, e in enumerate(NONPOLY[:(8 if ctx.thorough else 3)])]
     # 3. real pipeline (parallel) and TLC (parallel)
     pool = ThreadPoolExecutor(14)
-    futs = [pool.submit(run_child, ctx, c) for c in cases + smoke]
+    futs = [pool.submit(run_child, ctx, c) for c in [c for c in cases if 'job' not in c] + smoke + bjobs]
     sem_cfg = {d: write_cfg(ctx.scratch / ('sem%d.cfg' % d), dict(DIM=d), invariants=['Verdict']) for d in (2, 3)}
 
     def sem(chunk_id, chunk):
@@ -242,8 +308,15 @@ def run(ctx):
         results[res['id']] = res
     # 4. compare
     for c in cases:
-        res = results[c['id']]
-        lab = vf_gen.render(c['tokens']) + ' [dim %d, degrees %s]' % (c['dim'], c['ps'])
+        if 'job' in c:        # one side of a boundary job
+            res = dict(results[c['job']])
+            if res.get('ok'):
+                res['data'] = res['sides'][c['sidx']]
+        else:
+            res = results[c['id']]
+        lab = vf_gen.render(c['tokens'], 'ds' if 'job' in c else 'dx') + ' [dim %d, degrees %s]' % (c['dim'], c['ps'])
+        if 'job' in c:
+            lab += ' [boundary axis %d side %d, side number %d with the same args dict]' % (c['bax'] - 1, c['bside'], c['sidx'] + 1)
         if c['ncu'] > 1 or c['ncv'] > 1:
             lab += ' [components u:%d v:%d]' % (c['ncu'], c['ncv'])
         if c['twospace']:
@@ -257,12 +330,12 @@ def run(ctx):
             ctx.violation('%s form=%s' % (kind, lab), {'error': res.get('error'), 'trace': res.get('trace')})
             ctx.case(c['id'], nontrivial=nontriv)
             continue
-        M = np.array(res['data']).reshape(res['shape'])
+        M = np.array(res['data']).reshape(c['shape'] if 'job' in c else res['shape'])
         exp = expected[c['id']]
         worst = 0.0
         bad = None
         scale = max(1.0, float(np.abs(M).max()))
-        for (i, j), q in zip(c['pairs'], exp):
+        for (i, j), q in zip(c.get('bpairs', c['pairs']), exp):
             got = M[i, j] if c['bilinear'] else M.ravel()[i]
             err = abs(got - float(q))
             worst = max(worst, err)
